@@ -6,8 +6,13 @@ import Dashu.Model.Serde.Num
   A macro invocation is a list of tokens (the lexing is rustc's; the generator builds token lists and
   level (ii) of the tie checks with the real compiler that they are lexed that way).
 
+  Since /repo e26a9db the token loops enforce the documented grammar (one sign per component, `/`
+  between numerator and denominator, one `~`, one `base`; `fbig!` refuses a second sign), i.e. the
+  code behaves as `intLiteral` / `ratLiteral` / `floatLiteral` below; the `…AsIs` mirrors describe
+  the loops *before* that commit and serve the counterexample theorems.
+
   For every macro three things are defined:
-    * `…AsIs`   the token state machine of the code as it is, followed by the run-time parser
+    * `…AsIs`   the token state machine of the code (before e26a9db), followed by the run-time parser
                 (`UBig::from_str_radix` & co. = `Model/Text/Spec`, float `from_str_native` =
                 `Serde.parseNativeRaw`) — what the macro *does*;
     * `rt…`     what the run-time parser says about the same text (tokens concatenated; `base N` ↦
